@@ -186,6 +186,12 @@ def run_behaviour(cnt: Counter, kind: str, up: int, down: int, beh: List[Dict[st
                         trace["stimulus"]["actions"].append([name])
                         r = req([name])
                         emit("ReqOther", name, getattr(r, "status", None) == "success")
+                    # ... and the interface's own switch, which every path that brings an interface up goes through (a link
+                    # being plugged in, Router.enable_port, the start of an episode): refused while the node is not on
+                    for pn in sorted(dut.network_interface):
+                        trace["stimulus"]["actions"].append(["api", "network_interface", pn, "enable()"])
+                        ret = dut.network_interface[pn].enable()
+                        emit("ReqOther", f"api/network_interface/{pn}/enable", ret is True)
             elif a == "MFrame":
                 target = rng.choice([x for x in (info["dut_ip"], info["far_ip"]) if x])
                 trace["stimulus"]["actions"].append(["frame_in", target])
